@@ -75,7 +75,11 @@ def gate_matrix(box):
     if isinstance(box, gates.QuantumGate):
         name = box._name
         if name not in TKET:
-            return None
+            # a user-defined gate: the array the user gave, in [in, out] order; a daggered
+            # user gate keeps the array of the gate it is the dagger of
+            n = len(box.dom)
+            a = np.asarray(box.array, dtype=complex).reshape(2 ** n, 2 ** n).T
+            return a.conj().T if box.is_dagger else a
         u = tket_unitary(name)
         return u.conj().T if box.is_dagger else u
     return None
@@ -207,8 +211,8 @@ def cq_box_matrix(box):
         return classical(v, len(box.digits), 0) if box.is_dagger else classical(v, 0, len(box.digits))
     if isinstance(box, gates.ClassicalGate):
         G = np.asarray(box.array, dtype=complex)
-        if box.is_dagger:
-            raise KeyError("daggered generic classical gate")
+        if box.is_dagger:   # keeps the data of the gate it is the dagger of, laid out [cod..., dom...]
+            return classical(G, n_out, n_in).conj().T
         return classical(G, n_in, n_out)
     u = gate_matrix(box)
     if u is None:
